@@ -41,6 +41,8 @@ def gen(ctx):
         yield Case("CMPX", G.hx(G.render(_p, G.Layout(rng, spelling=rng.choice(["sym", "word"])))), tags=("other-routes",))
     for _src in G.corner_programs():
         yield Case("CMP", "%s - -" % G.hx(_src), tags=("corner-grid",))
+    for _src in G.short_name_programs():
+        yield Case("CMP", "%s - %s" % (G.hx(_src), ";".join(G.hx(x) for x in ["acked", "rtt", "Report.acked", "Report.rtt", "l1", "l2", "c", "Report.c", "x", "y", "Report.x", "Report.y", "Report.Report.x", "Report.Reportx", "Reportx", "Report.Report.Report.z", "Report.Report.z", "Report.x.Report."])), tags=("short-name-of-a-report-variable",))
     n = 30000 if ctx.thorough else 1500
     for i in range(n):
         p = G.gen_program(rng, nrep=rng.randrange(0, 17), nctl=rng.randrange(0, 17)) if i % 3 else G.gen_program(rng)
